@@ -413,6 +413,10 @@ class XmlAttr(VC):
         st.assume(self.guard(z3.ForAll([i], z3.Implies(i >= 0, self.cnt(i + 1) == self.cnt(i) + step(i)), patterns=[self.cnt(i + 1)])))
         st.assume(self.guard(z3.ForAll([i, j], z3.Implies(z3.And(0 <= i, i < j), self.cnt(i) + step(i) <= self.cnt(j)),
                                        patterns=[z3.MultiPattern(self.cnt(i), self.cnt(j))])))
+        # requires: keys are non-empty strings (the empty key, which cannot form an attribute name at all, is decided
+        # quantifier-free by C24.xmlattr.items1 / items2)
+        from pyvc.interp import InterpBase
+        st.assume(self.guard(z3.ForAll([i], z3.Implies(z3.And(0 <= i, i < self.N), InterpBase.truthy_fn(z3.Select(self.K, i))))))
         self.d = st.alloc(HObj(_AbstractMapping), initial=True)
         self.autospace, self.autoescape = sym("autospace", "bool"), sym("autoescape", "bool")
         ctx = A.obj(st, EvalContext, "eval_ctx", fields={"autoescape": self.autoescape})
@@ -506,13 +510,27 @@ class XmlAttrSmall(XmlAttr):
         self.N = z3.IntVal(n)
         self.G = z3.BoolVal(True)
         st.assume(z3.Distinct(*[k.t for k in self.keys]) if n > 1 else z3.BoolVal(True))
+        if n > 1:  # distinct strings: at most one of them is empty
+            st.assume(z3.Or(*[z3.Not(self.empty(i)) for i in range(n)]))
         self.d = st.alloc(HDict(items={k: v for k, v in zip(self.keys, self.vals)}), initial=True)
         self.autospace, self.autoescape = sym("autospace", "bool"), sym("autoescape", "bool")
         ctx = A.obj(st, EvalContext, "eval_ctx", fields={"autoescape": self.autoescape})
         return [ctx, self.d, self.autospace], {}
 
+    def empty(self, i):
+        from pyvc.interp import InterpBase
+        return z3.Not(InterpBase.truthy_fn(self.keys[i].t))
+
     def bad_emitted(self):
-        return z3.Or(*[z3.And(self.emit(z3.IntVal(i)), f_bad_key(self.keys[i].t)) for i in range(self.n_items)])
+        # a key "could leave the attribute name" if it contains a terminator (the regex) or is empty: an empty key
+        # never enters the attribute-name state, `="value"` is then tokenised as names and further attributes
+        return z3.Or(*[z3.And(self.emit(z3.IntVal(i)), z3.Or(f_bad_key(self.keys[i].t), self.empty(i))) for i in range(self.n_items)])
+
+    def finding_key(self, res):
+        w = res.witness or {}
+        if any(k == "" and v not in (None, "UNDEFINED") for k, v in w.get("items", [])):
+            return "empty-key"
+        return json.dumps(w, sort_keys=True)
 
     def p_items(self, pre, out):
         if out.raised:
@@ -545,7 +563,8 @@ class XmlAttrSmall(XmlAttr):
             bad = model_value(model, f_bad_key(self.keys[i].t)) is True
             v = model.eval(self.vals[i].t, model_completion=True)
             is_none = str(v) == str(model.eval(host_const(None), model_completion=True))
-            items.append([f"k {i}" if bad else f"k{i}", f"v<{i}>\"" if emit else (None if is_none else "UNDEFINED")])
+            key = "" if model_value(model, self.empty(i)) is True else (f"k {i}" if bad else f"k{i}")
+            items.append([key, f"v<{i}> x=y\"" if emit else (None if is_none else "UNDEFINED")])
         return {"items": items, "autospace": bool(model_value(model, self.autospace.t)), "autoescape": bool(model_value(model, self.autoescape.t))}
 
 
@@ -563,8 +582,8 @@ def spec_xmlattr(items, autospace, autoescape):
     """-> ('raise',) | ('either',) | ('ok', text, is_markup)"""
     from jinja2 import Undefined
     emitted = [(k, v) for k, v in items if v is not None and not isinstance(v, Undefined)]
-    if any(c in k for k, _ in emitted for c in ATTR_TERMINATORS):
-        return ("raise",)
+    if any(c in k for k, _ in emitted for c in ATTR_TERMINATORS) or any(k == "" for k, _ in emitted):
+        return ("raise",)  # the empty key cannot form an attribute name: ="v" is tokenised as names / further attributes
     if any(c.isspace() for k, _ in emitted for c in k):
         return ("either",)  # other white space: rejecting it is allowed ("keys with spaces are not allowed")
     rv = " ".join(f'{html_escape(k)}="{html_escape(v)}"' for k, v in emitted)
@@ -609,7 +628,7 @@ XML_VALUES = [None, "UNDEFINED", "", "v", "<\"&'>", 0, {"markup": "<b>"}, "a b=c
 
 
 def cases_xmlattr(tier, seed):
-    keys = [k for k in strings(XML_KEY_ALPHA, 2) if k]
+    keys = list(strings(XML_KEY_ALPHA, 2))  # including the empty key
     for k in keys:
         for v in XML_VALUES:
             for autospace in (True, False):
@@ -620,6 +639,7 @@ def cases_xmlattr(tier, seed):
         for v1, v2 in itertools.product(XML_VALUES, repeat=2):
             yield {"items": [[k1, v1], [k2, v2]], "autospace": True, "autoescape": False}
     yield {"items": [], "autospace": True, "autoescape": True}
+    yield {"items": [["class", "a"], ["", "x onmouseover=alert(document.domain)//"]], "autospace": True, "autoescape": True}
     yield {"items": [["a", 1], ["b", None], ["c", "UNDEFINED"], ["d", "<"]], "autospace": False, "autoescape": True}
 
 
@@ -1340,7 +1360,8 @@ BOUNDED = [
     B("C24.bounded.tojson", cases_tojson, check_tojson,
       "all strings of length <= 2 (thorough: 3) over {< > & ' \" \\ a space é /} and seeded strings, scalars, nested lists/dicts over 4 adversarial strings x indent in {None, 0, 2}, through htmlsafe_json_dumps and the filter, default and custom dumps: none of < > & ', Markup, json.loads round trip"),
     B("C24.bounded.xmlattr", cases_xmlattr, check_xmlattr,
-      "all one-item mappings with keys of length 1..2 over {a space / > = \" < tab é \\n ' &} x 8 values x autospace, 42 key pairs x 64 value pairs, against the specification"),
+      "all one-item mappings with keys of length 0..2 over {a space / > = \" < tab é \\n ' &} x 8 values x autospace, 42 key pairs x 64 value pairs, against the specification",
+      lambda w: "empty-key" if any(k == "" and v not in (None, "UNDEFINED") for k, v in w["items"]) else None),
     B("C24.bounded.forceescape", cases_forceescape, check_forceescape,
       "all strings of length <= 4 over {a < > & ' \" space} as str and Markup, length <= 2 as __html__ objects, scalars; also the escape filter"),
     B("C24.bounded.markup_args", cases_markup_native, check_markup_args,
